@@ -14,7 +14,7 @@ SRC = '/repo/src/ssh_audit'
 FAST = ['C01', 'C03', 'C04', 'C15', 'C13', 'C05', 'C06', 'C07', 'C08', 'C18', 'C16', 'C11', 'C10', 'C14', 'C17', 'C09']
 TARGETS = {
     'ssh_audit.py': (['output_algorithm', 'output_algorithms', 'output', 'build_struct', 'post_process_findings', 'get_algorithm_recommendations', 'output_recommendations',
-                      'output_fingerprints', 'output_compatibility', 'output_info', 'output_security', 'evaluate_policy', 'audit', 'target_worker_thread', 'make_policy', 'algorithm_lookup'],
+                      'output_fingerprints', 'output_compatibility', 'output_info', 'output_security', 'evaluate_policy', 'audit', 'target_worker_thread', 'make_policy', 'algorithm_lookup', 'main', 'process_commandline'],
                      ['C01', 'C03', 'C04', 'C15', 'C13', 'C08', 'C07', 'C18', 'C11', 'C14', 'C05', 'C06', 'C16', 'C17', 'C09', 'C02', 'C19']),
     'policy.py': (None, ['C06', 'C05', 'C07', 'C17', 'C15']),
     'algorithms.py': (['get_recommendations', 'get_ssh_timeframe', 'maxlen'], ['C13', 'C14', 'C04', 'C01', 'C15']),
@@ -141,7 +141,10 @@ class Rewriter(ast.NodeTransformer):
 def generate(outdir, limit, seed):
     rnd = random.Random(seed)
     cand = []
+    only = os.environ.get('MUT_FILES')
     for fname, (funcs, checks) in TARGETS.items():
+        if only and fname not in only.split(','):
+            continue
         text = open(os.path.join(SRC, fname)).read()
         tree = ast.parse(text)
         fns = [n for n in ast.walk(tree) if isinstance(n, ast.FunctionDef) and (funcs is None or n.name in funcs or n.name.lstrip('_') in [f.lstrip('_') for f in funcs])]
